@@ -46,6 +46,7 @@ pub fn write_diff_bytesmut<const SHAPE: u8>() {
     kani::assert(a.len() == size, "HARNESS: checked writer wrote the reported size (C04)");
     // exactly `size` bytes of capacity
     let mut b = BytesMut::with_capacity(size);
+    b.resize(size, 0);
     let idx;
     {
         let s: &'static mut [u8] = unsafe { core::slice::from_raw_parts_mut(b.as_mut_ptr(), size) };
@@ -57,7 +58,7 @@ pub fn write_diff_bytesmut<const SHAPE: u8>() {
         core::mem::forget(w);
     }
     kani::assert(idx == size, "C11: unchecked writer advanced exactly the reported size");
-    unsafe { b.set_len(idx) };
+    b.truncate(idx);
     let mut o = crate::ref_thrift::Out::<64>::new();
     o.put_sym(&b[..]);
     kani::assert(o.eq_bytes(&a[..]), "C11: unchecked writer wrote exactly the bytes of the checked writer");
